@@ -247,6 +247,7 @@ class Env:
         self.sleeper_exc = None
         self.bsleep_exc = None
         self.none_pending = self.none_result = None
+        self.site_calls = {}          # fault injection counts the calls of a site within one run / call
 
     # ------------------------------------------------------------------ operation
     def op(self) -> Any:
